@@ -670,6 +670,7 @@ class World(object):
             self.img[nm] = cells
         self.log = []
         self.tags = threading.local()      # set by the interposition on LayerRenderer._render_layer
+        self.raw = {}                      # what was answered to the render task with these source ids
         self.gate = None                   # completion order of the upstream answers (layer names, first answers first)
         self.done = {}                     # layer name -> Event, set when the request for it was answered
 
@@ -709,7 +710,9 @@ class World(object):
             self.done[gate[max(pos) - 1]].wait(0.5)
             time.sleep(0.05)
         b = io.BytesIO()
-        self.render(layers, tr, bbox, size, base).save(b, 'png')
+        rendered_img = self.render(layers, tr, bbox, size, base)
+        rendered_img.save(b, 'png')
+        self.raw[repr(getattr(self.tags, 'ids', None))] = (rendered_img.mode, raw_pixels(rendered_img))
         for k in pos:
             self.done[gate[k]].set()
         b.seek(0)
@@ -759,7 +762,7 @@ def gen_config(rng, avoid_known):
         r = rng.random()
         if r < 0.2:
             s['res'] = rng.choice(['in', 'out'])
-        if rng.random() < 0.1:
+        if rng.random() < (0.3 if s['cov'] is not None and not s['cov'].get('conf') else 0.08):
             s['tcolor'] = (255, 255, 255)
         sources['s%d' % i] = s
     snames = sorted(sources)
@@ -1012,6 +1015,11 @@ def fixed_scenarios():
     out.append((clipc, [(['l0', 'l1'], True, None, (0, 0)), (['l0', 'l1'], True, None, (2, 1)),
                         (['l0', 'l1'], False, None, (-2, -1)), (['l1'], True, None, (1, -2)),
                         (['l0', 'l1'], True, None, (-1, 2), None, {'limit': 'l0', 'bbox': [1, -3, 3, W + 3]})]))
+    # colour keyed overlay (server without transparency) behind a coverage, requests reaching beyond the coverage
+    keyc = cfg({'s0': src(0, ['u0'], False), 's1': src(1, ['u1'], False, tcolor=(255, 255, 255), cov={'bbox': [0, 0, W, W], 'clip': False})},
+               [{'name': 'l0', 'title': 'l0', 'sources': ['s0']}, {'name': 'l1', 'title': 'l1', 'sources': ['s1']}])
+    out.append((keyc, [(['l0', 'l1'], True, None, (0, 0)), (['l0', 'l1'], True, None, (2, 0)),
+                       (['l0', 'l1'], False, None, (-1, 2)), (['l1'], True, None, (1, 1))]))
     # concurrent rendering, more layers than renderer threads, the upstream of a lower layer answers last
     three = cfg({'s0': src(0, ['u0'], True), 's1': src(1, ['u1'], True), 's2': src(0, ['u2'], True)},
                 [{'name': 'l%d' % i, 'title': 'l', 'sources': ['s%d' % i]} for i in range(3)], concurrency=2)
@@ -1086,6 +1094,7 @@ def stream_wms(ctx):
     curworld = {}
     rng_ranges = []
     rng_descr = []
+    src_images = []        # (transparent_color, tolerance, placement, upstream image, image returned by get_map)
 
     def ids_of(layer):
         from mapproxy.layer import LimitedLayer
@@ -1101,6 +1110,24 @@ def stream_wms(ctx):
             curworld['w'].tags.ids = None
         if res[1] is not None:
             added[id(res[1])] = (ids_of(layer), res[1], layer.coverage)
+            try:
+                # WMSSource.get_map: upstream image -> (sub image) -> colour key, compared with the model (source_image)
+                from mapproxy.layer import MapExtent
+                from mapproxy.image import bbox_position_in_image
+                q = self.query
+                raw = curworld['w'].raw.get(repr(ids_of(layer)))
+                tc, tol = getattr(layer, 'transparent_color', None), getattr(layer, 'transparent_color_tolerance', None)
+                if raw is not None and isinstance(getattr(layer, '_layer', layer), WMSSource) and (tc is None or tol is not None):
+                    placement = None
+                    if layer.extent and not layer.extent.contains(MapExtent(q.bbox, q.srs)):
+                        ssize, offs, _ = bbox_position_in_image(q.bbox, q.size, layer.extent.bbox_for(q.srs))
+                        placement = [((j - offs[1]) * ssize[0] + (i - offs[0]))
+                                     if (offs[0] <= i < offs[0] + ssize[0] and offs[1] <= j < offs[1] + ssize[1]) else None
+                                     for j in range(q.size[1]) for i in range(q.size[0])]
+                    pil = res[1].as_image()
+                    src_images.append((tc, tol, placement, raw, (pil.mode, raw_pixels(pil))))
+            except Exception as e:  # noqa
+                src_images.append(('error', repr(e)))
         return res
 
     def rec_add(self, img, coverage=None):
@@ -1366,6 +1393,24 @@ def stream_wms(ctx):
         LayerRenderer._render_layer = orig_render
         WMSSource.combined_layer = orig_combined
         LayerMerger.add = orig_add
+    si_terms, si_descr = [], []
+    for e in src_images:
+        if e[0] == 'error':
+            ctx.problem('harness', 'could not record a source image: %s' % e[1])
+            continue
+        tc, tol, placement, raw, got = e
+        if raw[0] not in ('RGB', 'RGBA') or got[0] not in ('RGB', 'RGBA', 'P', 'L'):
+            continue
+        si_terms.append('(%s, %s, %s, %s, %s)' % (
+            'None' if tc is None else '(Some %s)' % rgbl(tc), zlit(tol or 0),
+            'None' if placement is None else '(Some %s)' % llit(placement, lambda k: 'None' if k is None else '(Some %d%%nat)' % k),
+            img_lit(raw[0], None, raw[1]), img_lit(got[0], None, got[1])))
+        si_descr.append({'transparent_color': tc, 'tolerance': tol, 'sub_image_placement': placement,
+                         'upstream_image': raw, 'image_returned_by_get_map': got})
+    ctx.evaluations += len(si_terms)
+    ctx.corr_check('source_image', 'Compose', 'option rgb * Z * option (list (option nat)) * image * image', si_terms,
+                   "fun c => let '(tc, tol, pl, raw, got) := c in image_eqb (source_image tc tol pl raw) got",
+                   lambda i: si_descr[i], shard=150)
     ctx.corr_check('layer_range', 'Compose', 'option bool * list (bool * bool) * bool * bool', rng_ranges,
                    "fun c => let '(ex, members, hull, obs) := c in Bool.eqb (layer_res_ok ex members hull) obs",
                    lambda i: rng_descr[i], shard=400)
@@ -1377,7 +1422,7 @@ def stream_wms(ctx):
     ctx.corr_check('wms', 'Compose', WMS_TYPE, terms, WMS_CHECK, lambda i: descr[i], shard=40, defs=WMS_DEFS)
 
 
-def wms_triggers(server, req_names, transparent, query, world, snapshot, confs=None, bbox=None):
+def wms_triggers(server, req_names, transparent, query, world, snapshot, confs=None, bbox=None, drawn=None):
     trig = []
     if len(set(req_names)) != len(req_names):
         trig.append('wms,duplicate-layer-name')
@@ -1391,6 +1436,8 @@ def wms_triggers(server, req_names, transparent, query, world, snapshot, confs=N
     allsrc = []
     for nm in req_names:
         allsrc.extend(expand_ideal(server.layers[nm]))
+    if drawn is not None:
+        allsrc = drawn      # the sources that are drawn for this request (layers / sources outside their range left out)
     for a, b in zip(allsrc, allsrc[1:]):
         if a.client.request_template.url == b.client.request_template.url and a.opacity is None and b.opacity is None:
             if a.transparent_color and b.transparent_color:
@@ -1457,7 +1504,9 @@ def oracle_wms(ctx, server, req_names, transparent, bg, world, query, obs, rep, 
     tol = 2.0 + 1.5 * count
     dist = ref_distance(obs[2], acc, skip)
     if dist > tol:
-        trig = wms_triggers(server, req_names, transparent, query, world, snapshot, confs, bbox)
+        drawn = [sc for sc, _ in ideal_srcs
+                 if not (sc.res_range and not sc.res_range.contains(query.bbox, query.size, query.srs))]
+        trig = wms_triggers(server, req_names, transparent, query, world, snapshot, confs, bbox, drawn)
         sig = trig[0] if trig else 'wms,composition-differs'
         ctx.fail(sig, 'GetMap LAYERS=%s TRANSPARENT=%s BBOX=%s differs from the bottom-to-top composition of its layers by '
                  '%.1f/255 (tolerance %.1f)' % (','.join(req_names), transparent, ','.join(str(v) for v in bbox), dist, tol),
